@@ -369,3 +369,38 @@ def equal(a, b, seed=0, points=6, constraints=None, assume=None):
 
 def has_unit_symbols(e):
     return bool(sp.sympify(e).free_symbols & UNIT_SYMS)
+
+
+def float_eval(e, env, reducers=None):
+    """IEEE double evaluation of an *unevaluated* term in the association order of the tree (used where floating-point
+    grouping is the point).  env: {Symbol: float}; reducers: {function name: callable(inner_expr) -> float}."""
+    import math
+    e = sp.sympify(e) if not isinstance(e, sp.Basic) else e
+    if e.is_Symbol:
+        return float(env[e])
+    if e.is_Number:
+        return float(e)
+    if e is sp.pi:
+        return math.pi
+    if e.is_Add:
+        args = list(e.args)
+        acc = float_eval(args[0], env, reducers)
+        for a in args[1:]:
+            acc = acc + float_eval(a, env, reducers)
+        return acc
+    if e.is_Mul:
+        args = list(e.args)
+        acc = float_eval(args[0], env, reducers)
+        for a in args[1:]:
+            acc = acc * float_eval(a, env, reducers)
+        return acc
+    if e.is_Pow:
+        b, x = e.args
+        return float_eval(b, env, reducers) ** float_eval(x, env, reducers)
+    if isinstance(e, sp.core.function.AppliedUndef) and reducers and e.func.__name__ in reducers:
+        return reducers[e.func.__name__](e.args[0])
+    if e.func is sp.floor:
+        return float(math.floor(float_eval(e.args[0], env, reducers)))
+    if e.func is sp.Abs:
+        return abs(float_eval(e.args[0], env, reducers))
+    raise ValueError(f"float_eval: unsupported node {e.func}")
